@@ -2,6 +2,9 @@ import Sftp.Driver.C17
 import Sftp.Driver.C09
 import Sftp.Driver.C10Path
 import Sftp.Driver.Codec
+import Sftp.Driver.C16
+import Sftp.Driver.C15
+import Sftp.Driver.C02
 /-
   `sftpmodel`: line-protocol driver for the executable models.
   One case per input line (`op arg…`), one output line per case.
@@ -9,7 +12,8 @@ import Sftp.Driver.Codec
 open Sftp
 
 def allOps : List (String × (List String → String)) :=
-  Sftp.Driver.C17.ops ++ Sftp.Driver.C09.ops ++ Sftp.Driver.C10Path.ops ++ Sftp.Driver.Codec.ops
+  Sftp.Driver.C17.ops ++ Sftp.Driver.C09.ops ++ Sftp.Driver.C10Path.ops ++ Sftp.Driver.Codec.ops ++
+  Sftp.Driver.C16.ops ++ Sftp.Driver.C15.ops ++ Sftp.Driver.C02.ops
 
 def step (line : String) : String :=
   match (line.trimAscii.toString.splitOn " ").filter (· ≠ "") with
